@@ -54,6 +54,9 @@ func c18Payloads() []c18Payload {
 		{"path-blank-attr", func(n int) string { return fmt.Sprintf(`/x vfa%d=1`, n) }},
 		{"path-query-tab-attr", func(n int) string { return fmt.Sprintf("/x?a=1\tvfa%d=1", n) }},
 		{"path-query-slash-attr", func(n int) string { return fmt.Sprintf(`/x?a=1/vfa%d=1`, n) }},
+		// a header value that is not a parsable URL: error details quote it
+		{"unparsable-url", func(n int) string { return fmt.Sprintf(`https://sso.example.com/<vfc%d vfa%d=1>%%zz`, n, n) }},
+		{"unparsable-url-ctl", func(n int) string { return fmt.Sprintf("https://sso.example.com/\x7f<vfc%d vfa%d=1>", n, n) }},
 		{"alnum-valid-name", func(n int) string { return fmt.Sprintf(`vfc%d`, n) }},
 	}
 }
